@@ -122,6 +122,9 @@ op("drop_U", "drop table u", lambda m: _has(m, "U"), lambda m: m.s1().pop("U"))
 op("drop_V", "drop view v", lambda m: _has(m, "V", "VIEW"), lambda m: m.s1().pop("V"))
 op("create_S2", "create schema s2", lambda m: "S2" not in m.cat["DB1"], lambda m: m.cat["DB1"].__setitem__("S2", {}))
 op("create_S2_T", f"create table s2.t ({ddl_cols(['A', 'H'])}) comment = 's2c'", lambda m: _free(m, "T", ("DB1", "S2")), lambda m: _create(m, "T", [col("A"), col("H")], "s2c", ("DB1", "S2")))
+# a clone placed in ANOTHER schema, source named without a schema (= the current schema), with and without a same-named
+# table of other columns already present in the target schema
+op("clone_into_S2", "create table s2.u clone t", lambda m: _free(m, "U", ("DB1", "S2")) and _has(m, "T"), lambda m: m.cat["DB1"]["S2"].__setitem__("U", {"kind": "TABLE", "cols": _copy(_tcols(m, "T"), "clone"), "comment": ("?", m.s1()["T"]["comment"])}))
 op("drop_S2", "drop schema s2", lambda m: "S2" in m.cat["DB1"], lambda m: m.cat["DB1"].pop("S2"))
 op("create_DB2", "create database db2", lambda m: "DB2" not in m.cat, lambda m: m.cat.__setitem__("DB2", {}))
 op("create_DB2_S1", "create schema db2.s1", lambda m: "DB2" in m.cat and "S1" not in m.cat["DB2"], lambda m: m.cat["DB2"].__setitem__("S1", {}))
@@ -140,7 +143,7 @@ op("create_PK", "create table p (id int primary key, n varchar(4))", lambda m: _
 QUICK_OPS = [
     "create_T", "create_T_comment", "replace_T", "ctas_U_plain", "ctas_U_cast", "clone_U", "view_V", "add_H", "drop_B", "readd_B",
     "rename_col_B", "rename_T_U", "set_comment", "comment_on", "drop_T", "drop_U", "create_S2", "create_S2_T", "create_DB2", "nop_tag",
-    "dup_create_T", "replace_U_from_missing",
+    "dup_create_T", "replace_U_from_missing", "clone_into_S2",
 ]
 # explicit deeper histories (name collisions across time, schemas and databases) explored in both tiers
 COLLISIONS = [
@@ -165,6 +168,8 @@ COLLISIONS = [
     ["create_T_comment", "clone_U", "replace_U_from_missing"],
     ["create_T", "view_V", "dup_create_V"],
     ["create_S2", "create_S2_T", "create_T_comment"],  # same table name with different columns in two schemas
+    ["create_T_comment", "create_S2", "clone_into_S2"],
+    ["create_T", "create_S2", "create_S2_T", "clone_into_S2"],
     # a comment set through the no-op path, then changed by another route, then statements that are answered by the
     # shared no-op statement (SET / SET TAG): the shared object must not carry the old comment along
     ["create_T", "comment_on", "replace_T", "nop_set", "nop_tag"],
